@@ -164,6 +164,9 @@ def run_case(inp):
     temps = [_template(100 + t, n) for t in range(T)]
     rots = [Rotation.from_euler(ax, a, degrees=True)
             for ax, a in [("z", 0), ("z", 90), ("y", 90), ("z", -90), ("x", 90)][:K]]
+    if inp.get("single_rot"):
+        # a rotation set of size one whose only member is not the identity
+        rots = [Rotation.from_euler(*inp["single_rot"], degrees=True)]
     qk = rots[k]
     c = (n - 1) / 2
     # sub-volume = template j rotated by q_k, then displaced by d:  S[o] = T_k[o - d]
@@ -175,7 +178,7 @@ def run_case(inp):
     def V(clause, desc):
         viols.append({"clause": clause, "desc": desc, "input": dict(inp)})
 
-    kw = dict(rotations=rots) if K > 1 else {}
+    kw = dict(rotations=rots) if (K > 1 or inp.get("single_rot")) else {}
     tin = temps if T > 1 else temps[0]
     via = inp["via"]
     ms = (2.0, 2.0, 2.0)
@@ -253,6 +256,14 @@ def run_range_case(inp):
     want = [Rotation.from_euler("zyx", [ax, ay, az], degrees=True) for az, ay, ax in itertools.product(*grids)]
     n = inp["n"]
     tmpl = _template(100 + inp["seed"] % 7, n)
+    if inp.get("sharp"):
+        # sharp-edged blocks: finely spaced candidates are only told apart by the high frequencies
+        rr = np.random.default_rng(inp["seed"])
+        tmpl = np.zeros((n, n, n), dtype=np.float32)
+        for _ in range(3):
+            lo = rr.integers(2, n - 6, size=3)
+            hi = lo + rr.integers(2, 5, size=3)
+            tmpl[lo[0]:hi[0], lo[1]:hi[1], lo[2]:hi[2]] += float(rr.uniform(0.5, 1.5))
     m = ZNCCAlignment(tmpl, rotations=spec)
     got = Rotation.from_quat(np.asarray(m.quaternions, dtype=np.float64))
     if len(got) != len(want):
@@ -265,6 +276,8 @@ def run_range_case(inp):
                        f"(z, y, x degrees) is not searched (nearest searched one is {np.degrees(ang[k]):.2f} degrees away)")
         return viols
     k = int(inp["k"]) % len(want)
+    if inp.get("plant_identity"):
+        k = int(np.argmin([w.magnitude() for w in want]))
     c = (n - 1) / 2
     mtx = compose_matrices(np.array([c, c, c]), [want[k].inv()])[0].astype(np.float64)
     sub = ndi.affine_transform(tmpl, mtx, order=1, mode="constant", cval=0.0).astype(np.float32)
@@ -348,12 +361,21 @@ def oracle(rng, thorough, deep=False, hints=None):
                     sh = [int(x) for x in rng.integers(-1, 2, size=3)]
                     cases.append(dict(T=T, K=K, j=j, k=k, n=int(rng.choice([10, 11])), shift=sh,
                                       model=mdl, via=via, mask="slab" if (len(cases) % 2 == 0 and T > 1 and K > 1) else None))
+    for i, (T, via) in enumerate([(1, "model"), (2, "loader"), (1, "align_stack"), (3, "model"), (2, "group_list")][: 5 if (thorough or deep) else 3]):
+        cases.append(dict(T=T, K=1, j=int(rng.integers(0, T)), k=0, n=int(rng.choice([10, 11])), shift=[int(x) for x in rng.integers(-1, 2, size=3)],
+                          model="ZNCC", via=via, mask=None, single_rot=[["z", 90], ["y", 90], ["x", -90]][i % 3]))
     # (max, step) range forms, also with max not a multiple of step and with one or two axes switched off
     rsets = [[(20, 15), (0, 0), (0, 0)], [(0, 0), (25, 10), (0, 0)], [(10, 5), (4, 2), (8, 4)], [(0, 0), (0, 0), (35, 20)],
              [(15, 15), (20, 15), (0, 0)], [(30, 12.5), (0, 0), (7.5, 7.5)]]
     for i, rs in enumerate(rsets if (thorough or deep) else rsets[:3]):
         cases.append(dict(kind="range", via="range", ranges=[list(x) for x in rs], n=int(rng.choice([10, 11])),
                           k=int(rng.integers(0, 1000)), seed=int(rng.integers(0, 10 ** 6))))
+    # finely spaced candidates around the identity, sharp template, un-rotated and slightly rotated sub-volumes
+    for i in range(4 if (thorough or deep) else 2):
+        cases.append(dict(kind="range", via="range", ranges=[[[6, 3], [0, 0], [0, 0]], [[0, 0], [4, 2], [0, 0]], [[0, 0], [0, 0], [5, 2.5]],
+                                                             [[3, 3], [3, 3], [0, 0]]][i % 4],
+                          n=int([14, 15][i % 2]), k=int(rng.integers(0, 1000)), seed=int(rng.integers(0, 10 ** 6)), sharp=True,
+                          plant_identity=bool(i % 2 == 0)))
     viols = []
     stats = {"by_via": {}, "samples": [{"oracle_case": c} for c in cases[:2]]}
     for inp in cases:
